@@ -201,6 +201,10 @@ fn run_once(ch: &Ch, chn: &Chain, scenario: u32) -> ExecResult {
                 // submitters
                 let plans: Vec<Vec<validator::Block>> = match scenario {
                     1 => vec![
+                        // a block for genesis.first_block that carries an external justification instead of
+                        // a commit certificate (the execution layer of this harness accepts any such block):
+                        // offered first, it must be refused - blocks from first_block on need a certificate
+                        vec![validator::Block::PreGenesis(validator::PreGenesisBlock { number: BlockNumber(0), payload: Payload(vec![0xF0, 0x0D]), justification: validator::Justification(vec![1]) })],
                         vec![chn.blocks[0].clone().into(), chn.blocks[1].clone().into(), chn.blocks[2].clone().into()],
                         vec![chn.blocks[1].clone().into(), chn.conflicting1.clone().into(), chn.blocks[3].clone().into()],
                         vec![chn.invalid2.clone().into(), chn.blocks[0].clone().into()],
@@ -704,7 +708,7 @@ pub fn run(args: &Args) -> Report {
         "states": execs, "transitions": points, "traces_validated_against_impl": execs,
         "evaluations": execs, "distinct_nontrivial": distinct,
         "samples": [
-            {"scenario": 1, "case": "three submitters: [b0,b1,b2], [b1, a conflicting certified block 1, b3], [block 2 with an under-weight certificate, b0]; persistence completes writes one at a time or lags"},
+            {"scenario": 1, "case": "four submitters: [a pre-genesis-style block (external justification only) numbered genesis.first_block], [b0,b1,b2], [b1, a conflicting certified block 1, b3], [block 2 with an under-weight certificate, b0]; persistence completes writes one at a time or lags"},
             {"scenario": 2, "case": "submitters [b0,b1], [b4], [b1]; blocks 2-3 only arrive through a side-channel persistence jump that overtakes the queue"},
             {"scenario": 3, "case": "submitters [b0,b1,b2], [b1,b2,b3]; persistence completes a write / prunes the oldest block / the node crashes (in-flight writes lost); a new manager over the durable image; a syncing peer offers b0..b4 again"},
             {"scenario": 4, "case": "108 pre-genesis blocks (cache capacity 100 + 8) submitted in order; persistence completes 1 or 60 writes or prunes all but the newest block at each quiescent point; reads of first / middle / last queued block"},
